@@ -657,7 +657,7 @@ class Interp:
                     self.bound_roles.add(r.name)
                     return (ORD, r.sort, self.ranks[r.name])
         for r in self.roles:
-            if r.sort == base[1] and r.succ_of is None and r.sentinel != "max" and self.ranks.get(r.name) == base[2]:
+            if r.sort == base[1] and r.sentinel != "max" and self.ranks.get(r.name) == base[2] and not r.name.startswith("?"):
                 raise NeedRole(Role(f"{r.name}+1", r.sort, None, succ_of=r.name, required=False), f"successor term {canon}")
         raise AnalysisError("model-mismatch", f"K1: successor term {canon} has no role")
 
